@@ -280,9 +280,12 @@ func (m *vfMon) analyse(final bool) (viol [][2]string) {
 	}
 	for _, p := range m.pauses {
 		tp := p.ret
-		i := sort.Search(len(rs), func(i int) bool { return rs[i].ret > tp })
+		// a Resume whose interval overlaps the Pause's own interval [call, ret] is concurrent with it: either order of
+		// their effects is legitimate, no constraint. (Checking only "in flight when Pause returned" missed a Resume that
+		// was called and returned between the Pause's store and its recorded return: 1 alarm in 1.6 M stress cases.)
+		i := sort.Search(len(rs), func(i int) bool { return rs[i].ret > p.call })
 		tr := sufMinCall[i]
-		if tr < tp { // a Resume was in flight when Pause returned: no constraint
+		if tr < tp {
 			continue
 		}
 		lo := sort.Search(len(userStarts), func(i int) bool { return userStarts[i] > tp })
